@@ -10,7 +10,7 @@ def run(tier):
     c = Check(PROP, tier)
     cov = bindgen.run_c17(c, tier)
     c.assumptions += ["cbindgen is not installed: headers are synthetic, rendered by tools/cbgen.py in cbindgen's output shape as reconstructed from cglue-bindgen's regular expressions and the pre-generated example header",
-                      "C mode only in this round (C++ mode not exercised)",
+                      "C++ headers are rendered by tools/cbgen_cpp.py (templates; shape reconstructed from cpp.rs and examples/pregen-headers/bindings.hpp); the configuration 'default container without default context' is outside the C++ space (the tool then names `NoContext`, whose declaration by cbindgen cannot be established offline)",
                       "the callee side is a mock: a consuming slot releases the instance and the context it was handed, as the Rust glue does"]
     c.finish(cov)
 
